@@ -15,6 +15,7 @@ for l in log:
     if os.path.exists(meta):
         md = json.load(open(meta))
         origin = 'sub-agent r%d' % md.get('round', 1)
+        prop = md.get('property', prop)
         what = md['mechanism'] + ' — needs: ' + md['needs_to_manifest']
         if md.get('run_check') and md.get('run_check') != md.get('property'):
             what += ' — aimed at %s by the agent; the seam it needs is %s\'s, which reports it' % (md['property'], md['run_check'])
